@@ -9,6 +9,9 @@
 (*   new       {id, w, h, bytes, rid, rw, rh}                              *)
 (*   set1      {w, h, x, y, changed, panic, reads}   on a fresh page       *)
 (*   frombytes {w, h, len, res, expected, actual, same_bytes, equals_producer} *)
+(*   frombytes_wide {w, h, len_c, len_r, res, exp_c, exp_r, act_c, act_r}   *)
+(*             sizes of 4 GiB and more: lengths as (chunks of 16, rest)    *)
+(*   set1_wide {w, h, x, y, changed: <<hi, lo, value>>.., panic, reads}    *)
 (***************************************************************************)
 EXTENDS Page, TraceBase
 
@@ -85,6 +88,21 @@ FromBytesEv ==
        ELSE E.res = "wronglength" /\ E.expected = TotalBytes(E.w, E.h) /\ E.actual = E.len
     /\ UNCHANGED o
 
-Next == PageEv \/ OpEv \/ SparseEv \/ NewSumEv \/ NewEv \/ Set1Ev \/ FromBytesEv
+\* pages whose size exceeds 32 bits: the dimensions alone decide, whatever length is offered
+FromBytesWideEv ==
+    /\ IsEvent("frombytes_wide")
+    /\ IF E.len_c = WideChunks(E.w, E.h) /\ E.len_r = 0
+       THEN E.res = "ok"
+       ELSE /\ E.res = "wronglength" /\ E.exp_c = WideChunks(E.w, E.h) /\ E.exp_r = 0
+            /\ E.act_c = E.len_c /\ E.act_r = E.len_r
+    /\ UNCHANGED o
+
+Set1WideEv == /\ IsEvent("set1_wide")
+              /\ E.panic = FALSE
+              /\ LET wi == WideIndex(E.h, E.x, E.y) IN E.changed = << <<wi[1], wi[2], Pow2(E.y % 8)>> >>
+              /\ E.reads = TRUE
+              /\ UNCHANGED o
+
+Next == FromBytesWideEv \/ Set1WideEv \/ PageEv \/ OpEv \/ SparseEv \/ NewSumEv \/ NewEv \/ Set1Ev \/ FromBytesEv
 Spec == Init /\ [][Next]_vars
 =============================================================================
